@@ -11,6 +11,7 @@ func rulePanicSites(r *rep.Report, p *load.Program, rl *roles.Roles) {
 	ruleIndexSites(r, p, rl)
 	if p.Cfg.Name == "amd64-default" {
 		ruleBounds(r, p, rl)
+		ruleZeroScanGuard(r, p, rl)
 	}
 }
 func ruleArithStructure(r *rep.Report, p *load.Program) { ruleUnrolledChains(r, p) }
